@@ -112,7 +112,7 @@ def fCurrentSuggestion (cfg : Cfg) (s : FState) : Sugg :=
 def fKey (w : World) (layout : Layout) (cfg : Cfg) (s : FState) (key modifier : Nat) : FState × Sugg :=
   match fKeyState layout cfg s key modifier with
   | none => (s, fCurrentSuggestion cfg s)
-  | some s' => fCreateSuggestion w cfg s'
+  | some s' => if s'.rbuf.isEmpty && s'.pending.isNone then (s', Sugg.empty) else fCreateSuggestion w cfg s'
 
 def fBackspace (w : World) (cfg : Cfg) (s : FState) (ctrl : Bool) : FState × Sugg :=
   let (s', mk) := fBackspaceState s ctrl
